@@ -9,6 +9,7 @@ invalid sizes –, `reset`, `fill`, `embed`); none has a bound.  Helper lemmas: 
 `Reach s` = "s is the pool after some history"; by `reachable_inv` such a pool satisfies the invariant `Inv`.
 -/
 import AsmjitVerif.Lemmas.ConstPoolImage
+import AsmjitVerif.Lemmas.ConstPoolEmit
 namespace AsmjitVerif.ConstPool
 open Spec
 
@@ -122,6 +123,132 @@ theorem embed_aligned (s : Pool) (pad : BitVec 8) (pre : Bytes) :
   apply List.drop_left'
   simp; omega
 
+/-! ### pools in the section: `embed_const_pool`, the Compiler's local / global pools -/
+
+/-- `embed_const_pool` is refused exactly for an invalid or an already bound label (and then nothing is emitted: the
+result carries no section) -/
+theorem embedPool_refused_iff (pad : BitVec 8) (s : Sect) (l : Nat) (p : Pool) :
+    (∃ e, embedPool pad s l p = .error e) ↔ (¬ l < s.nlabels ∨ (s.offsetOf l).isSome = true) := by
+  unfold embedPool
+  by_cases h1 : l < s.nlabels
+  · cases h2 : s.offsetOf l <;> simp [h1]
+  · simp [h1]
+
+/-- an accepted `embed_const_pool`: earlier bytes and label bindings are kept, no label is created, the label is bound at
+a multiple of the pool alignment and the pool image follows it -/
+theorem embedPool_ok_spec (pad : BitVec 8) (s s' : Sect) (l : Nat) (p : Pool) (h : embedPool pad s l p = .ok s') :
+    Ext s s' ∧ Placed s' ⟨l, p⟩ :=
+  ⟨embedPool_ext h, embedPool_placed (cp := ⟨l, p⟩) h⟩
+
+/-- serialisation of a finished Compiler never hits a refused `embed_const_pool`: every pool node of the final node list
+(ended functions' local pools, the global pool) is placed – label bound at a multiple of its alignment, image behind it -/
+theorem compile_pools_placed (pad : BitVec 8) (epi : Bytes) (ops : List COp) :
+    ∀ cp ∈ poolsOfItems (finalizeNodes (crun Comp.init ops) epi), Placed (compile pad epi ops) cp := by
+  have hc := crun_cinv ops Comp.init CInv.init
+  have hsub : (poolsOfItems (finalizeNodes (crun Comp.init ops) epi)).Sublist (poolsOf (crun Comp.init ops)) := by
+    rw [finalize_pools]; unfold poolsOf
+    exact List.Sublist.append_left (List.sublist_append_right _ _) _
+  unfold compile layout
+  refine layoutFold_placed pad _ _ (fun cp h => ⟨hc.2 cp (hsub.subset h), by simp [Sect.empty, Sect.offsetOf]⟩) ?_
+  exact (hc.1).sublist (hsub.map _)
+
+/-- **Constants of the Compiler.** `_new_const` answered `[label + disp]` for the bytes `d`.  Whatever follows (more
+constants in any scope, code, functions opened and ended), after `finalize` there is a pool node with that label that
+still has `d` at the returned offset; and unless that node is a local pool whose function was never ended, the label is
+bound in the section at a multiple of the pool alignment, the section carries `d` at `label + off`, and that position is
+a multiple of the constant's size.  (`disp = int32 off`; they agree below 2 GiB: `int32_of_lt`.) -/
+theorem compile_const_in_image (pad : BitVec 8) (epi : Bytes) (pre post : List COp) (sc : Scope) (d : Bytes)
+    (label : Nat) (disp : Int) (h : (newConst (crun Comp.init pre) sc d).2 = .mem label disp) :
+    ∃ off cp, disp = int32 off ∧ cp ∈ poolsOf (crun Comp.init (pre ++ COp.newConst sc d :: post)) ∧ cp.label = label ∧
+      d.length ∣ off ∧ off + d.length ≤ cp.pool.size ∧ d.length ∣ cp.pool.alignment ∧
+      ((crun Comp.init (pre ++ COp.newConst sc d :: post)).loc ≠ some cp →
+        ∃ L, (compile pad epi (pre ++ COp.newConst sc d :: post)).offsetOf label = some L ∧
+          L % max cp.pool.alignment 1 = 0 ∧
+          slice (compile pad epi (pre ++ COp.newConst sc d :: post)).buf (L + off) d.length = d ∧
+          (L + off) % d.length = 0) := by
+  have hall1 := (crun_keeps pre Comp.init AllInv.init).1
+  obtain ⟨hst, hans⟩ := newConst_state (crun Comp.init pre) sc d
+  obtain ⟨hist, hinv⟩ := curPool_inv (crun Comp.init pre) sc hall1
+  rw [hans] at h
+  cases hr : (add (curPool (crun Comp.init pre) sc).pool d).2 with
+  | invalidArgument => rw [hr] at h; simp at h
+  | ok off =>
+    rw [hr] at h
+    simp only [ConstAnswer.mem.injEq] at h
+    obtain ⟨hlab, hdisp⟩ := h
+    have hv : validSize d.length = true := by
+      cases hv : validSize d.length with
+      | true => rfl
+      | false => rw [add_invalid _ d hv] at hr; exact absurd hr (by simp)
+    obtain ⟨off', hres, hinv', _, _⟩ := add_inv _ hist d hinv hv
+    rw [hr] at hres; simp only [Result.ok.injEq] at hres; subst hres
+    -- right after the call the constant is held by the scope's pool node
+    have hold2 : HoldsIn (cstep (crun Comp.init pre) (.newConst sc d)) label off d := by
+      refine ⟨⟨(curPool (crun Comp.init pre) sc).label, (add (curPool (crun Comp.init pre) sc).pool d).1⟩, ?_, hlab, _, hinv', List.mem_cons_self⟩
+      simp only [cstep]; rw [hst]
+      cases sc with
+      | loc => exact (mem_poolsOf _ _).2 (Or.inr (Or.inl rfl))
+      | glob => exact (mem_poolsOf _ _).2 (Or.inr (Or.inr rfl))
+    have hall2 := (cstep_keeps (crun Comp.init pre) (.newConst sc d) hall1).1
+    have hrun : crun Comp.init (pre ++ COp.newConst sc d :: post) = crun (cstep (crun Comp.init pre) (.newConst sc d)) post := by
+      simp [crun, List.foldl_append]
+    obtain ⟨cp, hmem, hl, hist3, hinv3, he3⟩ := (crun_keeps post _ hall2).2 label off d hold2
+    rw [← hrun] at hmem
+    have hok := entry_ok _ _ hinv3 _ he3
+    refine ⟨off, cp, hdisp.symm, hmem, hl, hok.1, hok.2.1, hok.2.2.1, fun hnl => ?_⟩
+    have hin : cp ∈ poolsOfItems (finalizeNodes (crun Comp.init (pre ++ COp.newConst sc d :: post)) epi) := by
+      rw [finalize_pools]
+      rcases (mem_poolsOf _ cp).1 hmem with h1 | h1 | h1
+      · exact List.mem_append_left _ h1
+      · exact absurd h1 hnl
+      · exact List.mem_append_right _ (by simp [h1])
+    obtain ⟨L, hb, hal, hfit, hsl⟩ := compile_pools_placed pad epi _ cp hin
+    have hflen : (fill cp.pool).length = cp.pool.size := (fill_facts _ _ hinv3).1
+    refine ⟨L, hl ▸ hb, hal, ?_, ?_⟩
+    · have h1 : slice (fill cp.pool) off d.length = d := slice_of_pointwise _ _ _ (hist_image _ _ hinv3 _ he3)
+      rw [← slice_slice _ L (fill cp.pool).length off d.length (by rw [hflen]; exact hok.2.1), hsl]; exact h1
+    · have hpos := hok.2.2.2.1
+      have hle := hok.2.2.2.2
+      have hmax : max cp.pool.alignment 1 = cp.pool.alignment := by simp only at hle hpos; omega
+      rw [hmax] at hal
+      have h1 : d.length ∣ L := Nat.dvd_trans hok.2.2.1 (Nat.dvd_of_mod_eq_zero hal)
+      exact Nat.mod_eq_zero_of_dvd (Nat.dvd_add h1 hok.1)
+
+/-! ### the 32-bit `Node::_offset` and the `int32_t` displacement -/
+
+/-- while the pool stays within 4 GiB the truncation of the stored offsets changes nothing: every theorem above is a
+theorem about the C++ with its `uint32_t` field -/
+theorem add32_eq_add_below_4GiB (s : Pool) (hr : Reach s) (d : Bytes) (h : (add s d).1.size ≤ 2 ^ 32) :
+    add32 s d = add s d := by
+  obtain ⟨hist, hinv⟩ := reachable_inv s hr
+  have hinv' : ∃ h2, Inv (add s d).1 h2 := by
+    by_cases hv : validSize d.length = true
+    · obtain ⟨off, _, hi, _, _⟩ := add_inv s hist d hinv hv; exact ⟨_, hi⟩
+    · have hv' : validSize d.length = false := by simpa using hv
+      rw [add_invalid s d hv']; exact ⟨hist, hinv⟩
+  obtain ⟨h2, hi2⟩ := hinv'
+  unfold add32
+  have : wrapTree (add s d).1.tree = (add s d).1.tree := by
+    apply wrapTree_id
+    intro i n hn
+    have hok := hi2.tree.ok i n hn
+    have := hok.fit; have := Nat.two_pow_pos i; omega
+  simp only [this]
+
+/-- … and the first pool size at which it does: in a pool of exactly 4 GiB (the state below satisfies the invariant; a
+reachable one needs 2^26 distinct 64-byte constants) a new constant is placed at offset 2^32, but asking for it again
+returns 0 – the same constant, two offsets.  Not reachable in this sandbox (memory); listed as a limit, not a defect. -/
+theorem add32_dedup_breaks_at_4GiB_witness :
+    Inv { Pool.init with size := 2 ^ 32 } [] ∧
+    (add32 { Pool.init with size := 2 ^ 32 } [1#8]).2 = .ok (2 ^ 32) ∧
+    (add32 (add32 { Pool.init with size := 2 ^ 32 } [1#8]).1 [1#8]).2 = .ok 0 := by
+  refine ⟨?_, by decide, by decide⟩
+  refine ⟨⟨?_, ?_, ?_, ?_, ?_⟩, ⟨?_, ?_, ?_, ?_⟩, Or.inl rfl⟩ <;> simp [Pool.init, NS, getAt_nil]
+
+/-- `_new_const` stores `int32_t(off)` in the memory operand: exact below 2 GiB, negative from 2 GiB on -/
+theorem newConst_disp_int32 : (∀ n, n < 2 ^ 31 → int32 n = Int.ofNat n) ∧ int32 (2 ^ 31) = -(2 ^ 31 : Int) :=
+  ⟨int32_of_lt, by decide⟩
+
 /-! ### non-vacuity: the hypotheses are satisfiable and the monitor is not trivially true -/
 
 -- a history with dedup, a shared sub-constant, gap creation and gap reuse; the model's answers are the expected ones
@@ -140,5 +267,13 @@ example : accepts [.add [1#8] (.ok 0) 1 1, .fill [] 1 1] = false := by decide
 example : accepts [.add [1#8, 2#8, 3#8] (.ok 0) 3 1] = false := by decide
 example : accepts [.add [1#8, 2#8] (.ok 0) 2 0] = false := by decide   -- alignment 0 covers nothing
 example : accepts [.add [1#8] (.ok 0) 1 1, .add [1#8, 2#8] (.ok 2) 4 2, .fill [1#8, 0#8, 1#8, 2#8] 4 2] = true := by decide
+
+-- Compiler: two functions with local pools, a global pool, a constant handed out before its function is ended
+example : (compile 0xCC#8 [0xC3#8] [.addFunc [], .newConst .loc [1#8, 2#8], .newConst .glob [9#8], .code [0x90#8], .endFunc [0xC3#8],
+    .addFunc [], .newConst .loc [7#8], .endFunc [0xC3#8], .newConst .glob [5#8, 6#8]]).buf
+    = [0x90#8, 0xC3#8, 1#8, 2#8, 0xC3#8, 7#8, 9#8, 0#8, 5#8, 6#8] := by decide
+example : (newConst (crun Comp.init [.addFunc []]) .loc [1#8, 2#8]).2 = .mem 0 0 := by decide
+example : (embedPool 0xCC#8 (newLabel (Sect.empty 0)) 0 (run [.add [1#8, 2#8]])).toOption.map (·.buf) = some [1#8, 2#8] := by decide
+example : ∃ e, embedPool 0#8 (Sect.empty 0) 0 Pool.init = .error e := ⟨_, rfl⟩
 
 end AsmjitVerif.ConstPool
